@@ -101,7 +101,37 @@ def cp_shape(rnd, w, signed=False, allow_overlap=False):
     return cp, lo, hi
 
 
+def bind_variants(scs):
+    """the two other ways of providing sampling data (coverage.rst): every third scenario is repeated with callables bound
+    at instantiation (lambda) and every third with an object handed to the constructor by reference; sample() then takes
+    no arguments.  The counters must not depend on how the data arrives."""
+    import copy
+    out = list(scs)
+    for i, sc in enumerate(scs):
+        if i % 3 == 0 or any(sh.get("objsample") for sh in sc["shapes"].values()):
+            continue
+        b = "lambda" if i % 3 == 1 else "ref"
+        c = copy.deepcopy(sc)
+        c["id"] += "/" + b
+        for sh in c["shapes"].values():
+            sh["bind"] = b
+        out.append(c)
+    return out
+
+
 def family_bins(tier, seed, n=None):
+    return bind_variants(family_bins0(tier, seed, n))
+
+
+def family_cross(tier, seed, n=None):
+    return bind_variants(family_cross0(tier, seed, n))
+
+
+def family_types(tier, seed, n=None, reports=False, options=True):
+    return bind_variants(family_types0(tier, seed, n, reports, options))
+
+
+def family_bins0(tier, seed, n=None):
     out = []
     n = n or (60 if tier == "quick" else 1200)
     for t in range(n):
@@ -162,7 +192,7 @@ def family_bins(tier, seed, n=None):
 
 
 # ------------------------------------------------------------------------------------------ C11
-def family_cross(tier, seed, n=None):
+def family_cross0(tier, seed, n=None):
     out = []
     n = n or (40 if tier == "quick" else 600)
     for t in range(n):
@@ -246,7 +276,7 @@ def small_shape(rnd, cls, variant, atl=None, wts=None):
     return sh
 
 
-def family_types(tier, seed, n=None, reports=False, options=True):
+def family_types0(tier, seed, n=None, reports=False, options=True):
     out = []
     # two instances of ONE class whose parameter shifts a same-named, same-sized bin array: separate types
     rnd0 = random.Random(12)
